@@ -555,7 +555,68 @@ def replay(ctx, rp):
 
 
 
+def falsy_items(ctx, n, kind):
+    """directed family (direct API): items that are falsy or None (None, 0, '', False, [], ()) travel like any other item:
+    every receiver - already waiting or arriving later, awaiting once or iterating - gets exactly the objects that were put,
+    in order, on an OPEN stream; the end of the stream is only signalled after close()"""
+    import usim
+    from usim import time, Scope
+    rng = ctx.rng
+    for _ in range(n):
+        items = [rng.choice([None, 0, '', False, [], (), 0.0, 'x', 7]) for _ in range(rng.choice([1, 2, 3, 4]))]
+        waiting_first = rng.random() < 0.6
+        iterate = rng.random() < 0.5
+        nrecv = 1 if kind == 'queue' else rng.choice([1, 2])
+        case = {'falsy_items': [repr(x) for x in items], 'stream': kind, 'receiver_waits_first': waiting_first, 'iterates': iterate,
+                'receivers': nrecv}
+        stream = usim.Queue() if kind == 'queue' else usim.Channel()
+        got = [[] for _ in range(nrecv)]
+        errors = []
+
+        async def receiver(k):
+            try:
+                if iterate:
+                    async for x in stream:
+                        got[k].append(x)
+                else:
+                    for _ in items:
+                        got[k].append(await stream)
+            except usim.StreamClosed:
+                errors.append(('StreamClosed', k, time.now))
+
+        async def main():
+            async with Scope() as scope:
+                if not waiting_first and kind == 'queue':
+                    for x in items:
+                        await stream.put(x)
+                for k in range(nrecv):
+                    scope.do(receiver(k))
+                await (time + 1)
+                if waiting_first or kind != 'queue':
+                    for x in items:
+                        await stream.put(x)
+                        if rng.random() < 0.5:
+                            await (time + 1)
+                await (time + 2)
+                await stream.close()
+        try:
+            usim.run(main())
+        except BaseException as e:   # noqa
+            ctx.fail(case, 'raised %r; received %r' % (e, got), family='falsy-items')
+            continue
+        ctx.count(('falsy', json.dumps(case)), nontrivial=True)
+        ctx.bump('family:falsy-items')
+        for k in range(nrecv):
+            ok = len(got[k]) == len(items) and all(a is b or (a == b and type(a) is type(b)) for a, b in zip(got[k], items))
+            if not ok:
+                ctx.fail(case, 'receiver %d got %r, the items put were %r' % (k, got[k], items), family='falsy-items')
+                break
+        if errors and not iterate and len(got[0]) < len(items):
+            ctx.fail(case, 'StreamClosed on an open stream: %r' % (errors,), family='falsy-items')
+
+
 def run(ctx):
+    falsy_items(ctx, ctx.n(40, 600), 'channel')
     _run_vertical(ctx)
     # second, independent tie: channel programs on the whole-program machine (whole-trace correspondence)
     from harness import machine_prop
